@@ -607,7 +607,11 @@ def catalogue(tier, seed):
             bsub += [ang + one, one + tr, tr + ang]
         add(cname + '.__mul__', 'pose*pose', [opg('A'), opg('B')],
             lambda v, ctor=ctor, n=np_: (lambda X=ctor(v[:n]), Y=ctor(v[n:]): X * Y), subsets=bsub)
+        add(cname + '.__truediv__', 'pose/pose', [opg('A'), opg('B')],
+            lambda v, ctor=ctor, n=np_: (lambda X=ctor(v[:n]), Y=ctor(v[n:]): X / Y), subsets=bsub)
         isub = [one] + ([ang, tr] if np_ >= 3 else []) + (['10', '01'] if np_ == 2 else [])
+        # (`**` is not among the operations the statement names - compose, invert, act on points - nor tagged as supporting SymPy:
+        #  negative powers of a symbolic pose refuse loudly inside numpy.linalg; not claimed)
         add(cname + '.inv', 'X', [opg('A')], lambda v, ctor=ctor: (lambda X=ctor(v): X.inv()), subsets=isub)
         pg = (lambda: A.vec3('p', short=True)) if dim == 3 else (lambda: Group('p', 'len', 2, [(n, x[:2]) for n, x in A.v3s]))
         psub = [one + '1' * dim, one + '0' * dim, zero + '1' * dim, zero + '1' + '0' * (dim - 1), one + '0' * (dim - 1) + '1']
